@@ -19,8 +19,11 @@ def main():
     mode = payload["args"].get("mode", "tracking")
     r = h_retrieve.resolution_cases({}, {"obligation": "#ensures:pinned_" if mode == "exact" else ""})
     violations = [{"what": r["detail"], "inputs": r.get("inputs")}] if r.get("reproduced") else []
-    print(json.dumps({"scope": "420 local paths x 3 context modules on a real module graph (accepted package, non-accepted package, re-exports and module attributes in both directions), %s comparison with the contract's case table" % mode,
-                      "evaluations": 1260, "distinct_nontrivial": 1260, "rule": "one case per (context module, local path)", "samples": [{"local_path": ["outside", "accm", "f"], "context_module": "acc.sub.m2"}], "violations": violations, "known_hits": []}))
+    r2 = h_retrieve.retrieve_cases({}, {})
+    if r2.get("reproduced"):
+        violations.append({"what": r2["detail"], "inputs": r2.get("inputs")})
+    print(json.dumps({"scope": "420 local paths x 3 context modules on a real module graph (accepted package, non-accepted package, re-exports and module attributes in both directions), %s comparison with the contract's case table; retrieve_object (cache, import fall-back, start globals of a __main__ module) on 396 (module, path) pairs with a fresh context each and with one shared context in two orders" % mode,
+                      "evaluations": 1260 + 1188, "distinct_nontrivial": 1260 + 396, "rule": "one case per (context module, local path)", "samples": [{"local_path": ["outside", "accm", "f"], "context_module": "acc.sub.m2"}], "violations": violations, "known_hits": []}))
 
 
 if __name__ == "__main__":
